@@ -103,6 +103,29 @@ def pool_factory(ck):
                       'a second pair for the same unordered assets is refused also when it is asked for with another pool type (one pair per asset set)')
             ck.oblige('C19.factory.remove_then_create.' + tag, p, not (p.extra['r4'].variant == 'Ok' and p.extra['entries_after_remove'] == 0 and p.ok), 'a removed entry disappears and can be created again')
         ck.require(n >= 1, 'pool factory history %s: incomplete' % tag)
+    # two DIFFERENT asset sets whose sorted raw bytes concatenate to the same string (the registry key has no separator / length prefix)
+    CA, CB = (('native', 'aaa'), ('native', 'zzzb')), (('native', 'aaaz'), ('native', 'zzb'))
+    def body_coll(it):
+        it.extra = {}; c = it.ctx; pf_world(it); env = mk_env(it, 10**18)
+        for kind, name in CA + CB:
+            it.world.smart_table.append((PF, it.mkv(FQ, 'NativeTokenDecimals', denom=Str(name)), it.mk(PN + 'factory::NativeTokenDecimalsResponse', decimals=c.sym('dec_' + name, 8))))
+        r1 = enter(it, 'terraswap_factory', 'execute', env, mk_info('owner', []), create_pair_msg(it, *CA))
+        if r1.variant != 'Ok': raise PathPruned()
+        addr = 'new_pair_addr'
+        it.world.smart_table.append((addr, it.mkv(PN + 'pair::QueryMsg', 'Pair'), pair_info_answer(it, addr, *CA)))
+        r2 = enter(it, 'terraswap_factory', 'reply', env, None, instantiate_reply(1, addr))
+        if r2.variant != 'Ok': raise PathPruned()
+        it.extra['q_other'] = enter(it, 'terraswap_factory', 'query', env, None, it.mkv(FQ, 'Pair', asset_infos=Agg('array', [ainfo(it, CB[0]), ainfo(it, CB[1])])))
+        return enter(it, 'terraswap_factory', 'execute', env, mk_info('owner', []), create_pair_msg(it, *CB))
+    n = 0
+    for p in ck.explore(prog, body_coll, 'pool_factory.distinct_sets'):
+        if 'q_other' not in p.extra: continue
+        n += 1
+        ck.sample(dict(history='create(aaa,zzzb); reply; query(aaaz,zzb); create(aaaz,zzb)', outcome=p.short()))
+        q = p.extra['q_other']
+        ck.oblige('C19.factory.key.distinct_sets.concat_collision', p, q.variant == 'Ok' or not p.ok,
+                  'a different asset set is not answered with another set\'s pair and can get its own pair (sets {aaa, zzzb} and {aaaz, zzb}: equal concatenations)', site='pair_key concatenation')
+    ck.require(n >= 1, 'pool factory distinct-sets history: incomplete')
     # same asset twice is refused
     def body_same(it):
         pf_world(it)
@@ -110,64 +133,74 @@ def pool_factory(ck):
     for p in ck.explore(prog, body_same, 'pool_factory.same_asset'):
         ck.oblige('C19.factory.create.same_asset', p, p.ok, 'a pair of an asset with itself is refused')
     # pagination: every entry exactly once, for any limit and cursor
-    keys = [(UNIVERSE[0], UNIVERSE[1]), (UNIVERSE[2], UNIVERSE[0]), (UNIVERSE[3], UNIVERSE[1])]
-    def stored(it):
-        pf_world(it)
-        ents = []
-        for i, (a, b) in enumerate(keys):
-            ks = sorted([Str(x[1], canon=(True if x[0] == 'cw20' else None)) for x in (a, b)], key=raw_bytes)
-            raw = lambda x: it.mkv(PN + 'asset::AssetInfoRaw', 'NativeToken', denom=Str(x[1])) if x[0] == 'native' else it.mkv(PN + 'asset::AssetInfoRaw', 'Token', contract_addr=Agg('cosmwasm_std::CanonicalAddr', [Str(x[1])]))
-            ents.append(([Str(ks[0].s + ks[1].s, canon=(ks if any(k.canon for k in ks) else None))], it.mk(PN + 'asset::PairInfoRaw', asset_infos=Agg('array', [raw(a), raw(b)]), contract_addr=Agg('cosmwasm_std::CanonicalAddr', [Str('pair_%d' % i)]),
-                                                    liquidity_token=it.mkv(PN + 'asset::AssetInfoRaw', 'Token', contract_addr=Agg('cosmwasm_std::CanonicalAddr', [Str('lp_%d' % i)])),
-                                                    asset_decimals=Agg('array', [6, 6]), pair_type=it.mkv(PN + 'asset::PairType', 'ConstantProduct'))))
-        it.world.map('pair_info', ents)
-    def body_page(it):
-        it.extra = {}; c = it.ctx; stored(it); env = mk_env(it, 10**18)
-        lim = c.sym('limit', 32); c.assume(lim >= 1)
-        seen = []; cursor = NONE()
-        for rnd in range(4):
-            q = enter(it, 'terraswap_factory', 'query', env, None, it.mkv(FQ, 'Pairs', start_after=cursor, limit=SOME(lim)))
-            if q.variant != 'Ok': raise PathPruned()
-            page = q.fields[0].fields[0].payload.fields[0].items
-            if not page: break
-            seen += [deref(x.fields[1]).s for x in page]
-            last = page[-1]
-            cursor = SOME(dup(last.fields[0]))
-        it.extra['seen'] = seen
-        return OK(UNIT())
-    n = 0
-    for p in ck.explore(prog, body_page, 'pool_factory.pagination', unroll=80):
-        if p.kind != 'ret': continue
-        n += 1
-        seen = p.extra['seen']
-        ck.oblige('C19.pagination.once.pairs', p, sorted(seen) != ['pair_0', 'pair_1', 'pair_2'], 'paging through the registry with any page size returns every entry exactly once')
-    ck.require(n >= 1, 'pagination: no complete path')
-    # the pair that ended the first page is removed before the client asks for the next page: the cursor is no longer a registry key
-    def body_page_removed(it):
-        it.extra = {}; c = it.ctx; stored(it); env = mk_env(it, 10**18)
-        lim = c.sym('limit', 32); c.assume(lim >= 1)
-        seen = []; cursor = NONE()
-        for rnd in range(4):
-            q = enter(it, 'terraswap_factory', 'query', env, None, it.mkv(FQ, 'Pairs', start_after=cursor, limit=SOME(lim)))
-            if q.variant != 'Ok': raise PathPruned()
-            page = q.fields[0].fields[0].payload.fields[0].items
-            if not page: break
-            seen += [deref(x.fields[1]).s for x in page]
-            last = page[-1]
-            cursor = SOME(dup(last.fields[0]))
-            if rnd == 0:
-                a, b = keys[int(seen[-1][len('pair_'):])]
-                r = enter(it, 'terraswap_factory', 'execute', env, mk_info('owner', []), it.mkv(FX, 'RemovePair', asset_infos=Agg('array', [ainfo(it, a), ainfo(it, b)])))
-                if r.variant != 'Ok': raise PathPruned()
-        it.extra['seen'] = seen
-        return OK(UNIT())
-    n = 0
-    for p in ck.explore(prog, body_page_removed, 'pool_factory.pagination.removed_cursor', unroll=80):
-        if p.kind != 'ret': continue
-        n += 1
-        ck.oblige('C19.pagination.once.pairs.removed_cursor', p, sorted(p.extra['seen']) != ['pair_0', 'pair_1', 'pair_2'],
-                  'paging on from a cursor whose pair was removed in between still returns every remaining pair exactly once')
-    ck.require(n >= 1, 'pagination with a removed cursor: no complete path')
+    def pagination(keys, sfx):
+        def stored(it):
+            pf_world(it)
+            ents = []
+            for i, (a, b) in enumerate(keys):
+                ks = sorted([Str(x[1], canon=(True if x[0] == 'cw20' else None)) for x in (a, b)], key=raw_bytes)
+                raw = lambda x: it.mkv(PN + 'asset::AssetInfoRaw', 'NativeToken', denom=Str(x[1])) if x[0] == 'native' else it.mkv(PN + 'asset::AssetInfoRaw', 'Token', contract_addr=Agg('cosmwasm_std::CanonicalAddr', [Str(x[1])]))
+                ents.append(([Str(ks[0].s + ks[1].s, canon=(ks if any(k.canon for k in ks) else None))], it.mk(PN + 'asset::PairInfoRaw', asset_infos=Agg('array', [raw(a), raw(b)]), contract_addr=Agg('cosmwasm_std::CanonicalAddr', [Str('pair_%d' % i)]),
+                                                        liquidity_token=it.mkv(PN + 'asset::AssetInfoRaw', 'Token', contract_addr=Agg('cosmwasm_std::CanonicalAddr', [Str('lp_%d' % i)])),
+                                                        asset_decimals=Agg('array', [6, 6]), pair_type=it.mkv(PN + 'asset::PairType', 'ConstantProduct'))))
+            it.world.map('pair_info', ents)
+        def body_page(it):
+            it.extra = {}; c = it.ctx; stored(it); env = mk_env(it, 10**18)
+            lim = c.sym('limit', 32); c.assume(lim >= 1)
+            seen = []; cursor = NONE()
+            for rnd in range(4):
+                q = enter(it, 'terraswap_factory', 'query', env, None, it.mkv(FQ, 'Pairs', start_after=cursor, limit=SOME(lim)))
+                if q.variant != 'Ok': raise PathPruned()
+                page = q.fields[0].fields[0].payload.fields[0].items
+                if not page: break
+                seen += [deref(x.fields[1]).s for x in page]
+                last = page[-1]
+                cursor = SOME(dup(last.fields[0]))
+            it.extra['seen'] = seen
+            return OK(UNIT())
+        n = 0
+        for p in ck.explore(prog, body_page, 'pool_factory.pagination' + sfx, unroll=80):
+            if p.kind != 'ret': continue
+            n += 1
+            seen = p.extra['seen']
+            ck.oblige('C19.pagination.once.pairs' + sfx, p, sorted(seen) != ['pair_0', 'pair_1', 'pair_2'], 'paging through the registry with any page size returns every entry exactly once')
+        ck.require(n >= 1, 'pagination: no complete path')
+        # the pair that ended the first page is removed before the client asks for the next page: the cursor is no longer a registry key
+        def body_page_removed(it):
+            it.extra = {}; c = it.ctx; stored(it); env = mk_env(it, 10**18)
+            lim = c.sym('limit', 32); c.assume(lim >= 1)
+            seen = []; cursor = NONE()
+            for rnd in range(4):
+                q = enter(it, 'terraswap_factory', 'query', env, None, it.mkv(FQ, 'Pairs', start_after=cursor, limit=SOME(lim)))
+                if q.variant != 'Ok': raise PathPruned()
+                page = q.fields[0].fields[0].payload.fields[0].items
+                if not page: break
+                seen += [deref(x.fields[1]).s for x in page]
+                last = page[-1]
+                cursor = SOME(dup(last.fields[0]))
+                if rnd == 0:
+                    a, b = keys[int(seen[-1][len('pair_'):])]
+                    r = enter(it, 'terraswap_factory', 'execute', env, mk_info('owner', []), it.mkv(FX, 'RemovePair', asset_infos=Agg('array', [ainfo(it, a), ainfo(it, b)])))
+                    if r.variant != 'Ok': raise PathPruned()
+            it.extra['seen'] = seen
+            return OK(UNIT())
+        n = 0
+        for p in ck.explore(prog, body_page_removed, 'pool_factory.pagination.removed_cursor' + sfx, unroll=80):
+            if p.kind != 'ret': continue
+            n += 1
+            ck.oblige('C19.pagination.once.pairs.removed_cursor' + sfx, p, sorted(p.extra['seen']) != ['pair_0', 'pair_1', 'pair_2'],
+                      'paging on from a cursor whose pair was removed in between still returns every remaining pair exactly once')
+        ck.require(n >= 1, 'pagination with a removed cursor: no complete path')
+
+    pagination([(UNIVERSE[0], UNIVERSE[1]), (UNIVERSE[2], UNIVERSE[0]), (UNIVERSE[3], UNIVERSE[1])], '')
+    # entries whose assets order differently as TEXT and as RAW BYTES (a native denom that sorts before a cw20 address, two cw20 addresses):
+    # the cursor of a listing must be turned into the registry key with the registry's own (raw byte) order
+    mixed = [(('native', 'aarch'), ('cw20', 'token_aa')), (('cw20', 'token_aa'), ('cw20', 'token_zz')), (('cw20', 'contract9'), ('cw20', 'contract10'))]
+    def differs(k):
+        t = sorted(k, key=lambda x: x[1].encode()); r = sorted(k, key=lambda x: raw_bytes(Str(x[1], canon=(True if x[0] == 'cw20' else None))))
+        return t != r
+    ck.require(any(differs(k) for k in mixed), 'pagination.mixed: no entry whose text order differs from its raw byte order')
+    pagination(mixed, '.mixed_order')
 
 
 def trio_pagination(ck):
@@ -466,4 +499,4 @@ def main():
 
 
 if __name__ == '__main__':
-    sys.exit(main())
+    sys.exit(run_main(main))
